@@ -67,3 +67,8 @@ Theorem C02_acked_call_has_one_entry : forall local remote,
   call_class local remote = WAcked -> call_entries local remote = 1%N.
 Proof. exact acked_call_has_one_entry. Qed.
 Print Assumptions C02_acked_call_has_one_entry.
+
+Theorem C02_lin_ok_has_own_verify : forall o,
+  wait_lin o = LinOk -> lin_calls_verify o = true /\ lo_verify o = VOk.
+Proof. exact wait_lin_ok_own_verify. Qed.
+Print Assumptions C02_lin_ok_has_own_verify.
